@@ -142,7 +142,7 @@ def streams(ctx):
             cases.append({"req": l, "tag": ans if i == 0 else None})
         groups.append((s0, len(cases), a))
 
-    # recorded findings: probes of the two cache options
+    # the two cache options (F-C14-1 / F-C14-2, repaired): fixed probes first, then generated ones (stream c)
     W1 = [vlib.line("l.config", dumps({"ignorePrerelease": False})), vlib.line("l.start", "T"),
           vlib.line("l.cache", "npm", "lodash", "4.17.20", "5.0.0-beta.1"), vlib.line("l.init"),
           vlib.line("l.parse", "npm", DOCS["npm"][1]), vlib.line("l.open", DOCS["npm"][0], DOCS["npm"][1])]
@@ -169,16 +169,21 @@ def streams(ctx):
                 if ans[0] == "W1":
                     ok = vlib.hx("Update available: 4.17.20 -> 5.0.0-beta.1") in last
                     der.append({"req": vlib.line("ml.settle"), "index": a, "history": lines,
-                                "check": (lambda out, ok=ok: None if ok else ("known", "F-C14-1"))})
+                                "check": (lambda out, ok=ok: None if ok else ("violation", "ignorePrerelease=false was answered but a prerelease-only newer version is not reported as latest (the option does not reach the cache)"))})
                 else:
                     ok = "npm/" + vlib.hx("lodash") in last
                     der.append({"req": vlib.line("ml.settle"), "index": a, "history": lines,
-                                "check": (lambda out, ok=ok: None if ok else ("known", "F-C14-2"))})
+                                "check": (lambda out, ok=ok: None if ok else ("violation", "cache.refreshInterval=1 was answered but a package cached 600 s ago is not refreshed at start-up (the option does not reach the cache)"))})
                 continue
             lines = [c["req"] for c in cs[a:b]]
             ml, exp, idx = to_model_lines(lines, impl[a:b])
+            # an answered interval below the packages' age (0 here) makes them due at start-up; the refresh then works through the
+            # registries one after the other in hash-map order, which this stream does not model (stream (c) models the refresh of one
+            # registry): the claims ("parked=") are left out of the comparison, the traffic is compared in full
+            def noparked(x):
+                return " ; ".join(p for p in canon_msgs(x).split(" ; ") if not p.startswith("parked="))
             for l, e, i in zip(ml, exp, idx):
-                der.append({"req": l, "index": a + i, "check": (lambda out, e=e: None if canon_msgs(out) == canon_msgs(e) else ("model", canon_msgs(e)))})
+                der.append({"req": l, "index": a + i, "check": (lambda out, e=e: None if noparked(out) == noparked(e) else ("model", noparked(e)))})
             # the property on the implementation
             disabled = set()
             malformed = False
@@ -218,4 +223,55 @@ def streams(ctx):
         return der
     st_b = Stream("config-lsp", cases, nontrivial=lambda c, o: c.get("tag") is not None, derive=derive, model_eq=lambda i, m: True,
                   shrinkable=False, nt_on_impl=True)
-    return [st_a, st_b]
+    # (c) the two cache options under generated answers: a prerelease-only newer version and a package of a chosen age
+    DEF_RI = 86400000
+    ccases, cgroups = [], []
+    def eff(a):
+        """(ignorePrerelease, refreshInterval) in force after answer a, by the documented meaning"""
+        if a in ("FAIL", "NONE") or a is None:
+            return (True, DEF_RI)
+        sp = spec_parse(a)
+        return (sp[2], sp[3]) if sp[0] == "ok" else (True, DEF_RI)
+    pool = [a for a in answers if isinstance(a, dict) and ("ignorePrerelease" in a or "cache" in a) and not has_struct_array(a)]
+    pool = pool[: (40 if tier == "quick" else 1500)]
+    fixed_c = [{"ignorePrerelease": False}, {"ignorePrerelease": True}, {"cache": {"refreshInterval": 1}}, {"cache": {"refreshInterval": 0}},
+               {"cache": {"refreshInterval": -5}}, {"cache": {"refreshInterval": 9223372036854775807}}, {"cache": {"refreshInterval": -9223372036854775808}},
+               {"cache": {"refreshInterval": 600000}, "ignorePrerelease": False}, {"cache": {"refreshInterval": "soon"}, "ignorePrerelease": False},
+               {"ignorePrerelease": False, "extra": 1}, None, {}, "FAIL", "NONE", {"cache": {}}, {"cache": {"refreshInterval": 1.5}}]
+    for a in fixed_c + pool:
+        ip, ri = eff(a)
+        ages = sorted(set(x for x in (ri - 1, ri, ri + 1, 0, 600000, DEF_RI + 1) if 0 <= x < 2**62))
+        for age in (ages if (tier != "quick" or a in fixed_c[:9]) else [rng.choice(ages)]):
+            ans = a if a in ("FAIL", "NONE") else dumps(a)
+            L = [vlib.line("l.config", ans), vlib.line("l.start", "T"),
+                 vlib.line("l.cache", "npm", "lodash", "4.17.20", "5.0.0-beta.1"), vlib.line("l.now", str(1000 + age)), vlib.line("l.init", "npm"),
+                 vlib.line("l.parse", "npm", DOCS["npm"][1]), vlib.line("l.open", DOCS["npm"][0], DOCS["npm"][1])]
+            s0 = len(ccases)
+            for i, l in enumerate(L):
+                ccases.append({"req": l, "tag": (ans, age) if i == 0 else None})
+            cgroups.append((s0, len(ccases), a, age, ip, ri))
+
+    def derive_c(cs, impl):
+        der = []
+        for (a, b, ans, age, ip, ri) in cgroups:
+            lines = [c["req"] for c in cs[a:b]]
+            ml, exp, idx = to_model_lines(lines, impl[a:b])
+            for l, e, i in zip(ml, exp, idx):
+                der.append({"req": l, "index": a + i, "check": (lambda out, e=e: None if canon_msgs(out) == canon_msgs(e) else ("model", canon_msgs(e)))})
+            init_out, open_out = impl[a + 4], impl[b - 1]
+            refreshed = ("npm/" + vlib.hx("lodash")) in init_out.split("parked=")[-1]
+            want_refresh = age > ri            # updated_at < now - interval
+            if refreshed != want_refresh:
+                der.append({"req": vlib.line("ml.settle"), "index": a, "history": lines,
+                            "check": (lambda out, ans=ans, age=age, ri=ri, refreshed=refreshed: ("violation",
+                                f"answer {ans!r}: refresh interval in force {ri} ms, package cached {age} ms ago, start-up refresh {'asked for it' if refreshed else 'did not ask for it'}"))})
+            reported = vlib.hx("Update available: 4.17.20 -> 5.0.0-beta.1") in open_out
+            npm_off = isinstance(ans, dict) and spec_parse(ans)[0] == "ok" and "npm" in spec_parse(ans)[1]
+            if not npm_off and reported != (not ip):      # a disabled npm registry publishes nothing (judged by stream b)
+                der.append({"req": vlib.line("ml.settle"), "index": a, "history": lines,
+                            "check": (lambda out, ans=ans, ip=ip, reported=reported: ("violation",
+                                f"answer {ans!r}: ignorePrerelease in force is {ip}, but the prerelease-only newer version 5.0.0-beta.1 {'is' if reported else 'is not'} reported as latest"))})
+        return der
+    st_c = Stream("cache-options", ccases, nontrivial=lambda c, o: c.get("tag") is not None, derive=derive_c, model_eq=lambda i, m: True,
+                  shrinkable=False, nt_on_impl=True)
+    return [st_a, st_b, st_c]
